@@ -22,7 +22,7 @@ func init() {
 		Level: "proof",
 		Explanation: "For every error-returning call site reachable from the 19 ProcessBuiltinFunction implementations (dependency methods SaveKeyValue/LoadAccount/SaveAccount/Marshal/Unmarshal/IsPayable/" +
 			"AddToBalance/ChangeOwnerAddress/ClaimDeveloperRewards/CheckAllowedToExecute and every module function returning error) the checker assumes the returned error is non-nil and explores all CFG paths " +
-			"from the call, pruning only on nil-tests of that same value (and errors.Is against a module sentinel, which a dependency fault is not): every reachable return of the enclosing function must return a " +
+			"from the call, pruning only on nil-tests of that same value (and errors.Is against a module sentinel, which a dependency fault is not — checked where it is used: for every sentinel a caller tolerates on a carrier call, no block of the carrier entered through the failure edge of a dependency loads that sentinel, to return it or to wrap it): every reachable return of the enclosing function must return a " +
 			"definitely non-nil error (the value itself, a never-reassigned Err* global, fmt.Errorf/errors.New, another error on its non-nil edge). Entry points return (nil, err) on those paths (R2). " +
 			"By induction over call depth a failing dependency call always surfaces as an error of ProcessBuiltinFunction, for every input and every fault position. Excluded by the property: RetrieveValue and the " +
 			"pause lookup (IsPaused). Not decided: panics, dependencies that signal failure without an error.",
